@@ -78,6 +78,59 @@ CLAIMED = {
    design="6 (C03)", technique="Coq proof (ring/field over abstract commutative ring) + exact-rational model/implementation correspondence"),
 }
 
+CLAIMED.update({
+ "C06": dict(
+   text="Machine-checked Coq theorems: from_axis_angle for Matrix3/Matrix4/Quaternion/Basis3 equals Rodrigues' formula v cos t + (a x v) sin t + a (a.v)(1 - cos t) "
+        "for every unit axis, angle and vector (over any field from cos^2+sin^2 = 1 and the half-angle identities; over R outright), is a proper rotation "
+        "(orthonormal, det +1, fixes the axis), angles about one axis add and a full turn is the identity, from_angle_x/y/z are the special cases, the 2-D from_angle "
+        "is the counter-clockwise rotation and composes additively, Rad and Deg express the same rotation, invert is the transpose/conjugate and undoes the rotation, "
+        "rotate_point = origin + rotate_vector(p - origin). " + TIE + "Angles are drawn from a lattice on which sin/cos are exactly rational (semantic oracle passed to Coq as a table).",
+   note=NOTE + RAX + "sin/cos/sqrt are oracles (Trig record) constrained only by the stated identities; over R they are the standard library's.",
+   design="6 (C06)", technique="Coq proof (nsatz/field over abstract field + R instance) + exact-rational correspondence with rational-trig oracle"),
+ "C07": dict(
+   text="Machine-checked Coq theorems: From<Euler> for Quaternion/Matrix3/Matrix4/Basis3 is the intrinsic X-then-Y-then-Z product Rx*Ry*Rz (any commutative ring with "
+        "sin/cos oracle identities); over R, From<Quaternion> for Euler returns angles whose conversion back gives the same rotation (q or -q) on the regular branch, and on "
+        "the two gimbal branches returns y = +-pi/2, z = 0 and an x that reproduces the rotation when the test value is exactly +-1/2; the threshold constants are checked "
+        "(0.499 < 1/2, unit test value range). The sampled-f64 bound (error < 0.13 near the threshold) is an executed predicate only: PARTIAL for that clause. " + TIE,
+   note=NOTE + RAX + "Interval tactic used for numeric constants (its primitive-integer/float kernel primitives appear in Print Assumptions and are allowlisted by pattern). "
+        "PARTIAL: the near-threshold accuracy clause is sampled, not proved.",
+   design="6 (C07)", technique="Coq proof (ring identities; real analysis over R with atan2/asin) + exact-rational correspondence with trig oracle and float fallback"),
+ "C16": dict(
+   text="Machine-checked Coq theorems over a polymorphic model of the memory layout: every array/tuple/mint conversion round-trips and lists the components in declaration "
+        "order, Index/IndexMut agree with the fields and writes touch exactly one component (out of range = panic), matrix views are column-major, swap/slices behave as on "
+        "the flat array, map/zip are structural; the swizzle generator (model of build.rs) produces exactly the 550 operators and each selects the named components in order. "
+        "The generated table in the build output is re-parsed every run and compared entry-by-entry with the model's (vm_compute, exhaustive). " + TIE +
+        "All 550 swizzle methods are called on the implementation.",
+   note=NOTE + "No axioms. Layout is observed through AsRef/Into/mint conversions and raw pointer reads in the harness.",
+   design="6 (C16)", technique="Coq proof (polymorphic structural lemmas + exhaustive finite table by vm_compute) + correspondence incl. the build-script output"),
+ "C17": dict(
+   text="Machine-checked Coq theorems: an operator expression means the same whatever the spelling of its operands (value/reference, op= vs op) — proved for a small "
+        "instruction language whose interpreter erases the operand form, for every program; scalar-on-the-left equals scalar-on-the-right for commutative scalars; "
+        "Sum/Product over iterators by value and by reference equal the folds. " + TIE + "Every operator x every operand form x every type is executed on the implementation "
+        "(macro-generated harness) and compared with the model's single meaning.",
+   note=NOTE + "No axioms.", design="6 (C17)", technique="Coq proof (interpreter with erased forms, induction over programs) + exhaustive form-by-form correspondence"),
+ "C18": dict(
+   text="Machine-checked Coq theorems for any scalar relation sc: the compound abs_diff_eq/relative_eq/ulps_eq is exactly the conjunction of sc over all components "
+        "(vectors, points, matrices column by column, quaternions, Euler, Decomposed, angles), with its consequences (reflexive/symmetric when sc is; a single failing "
+        "component fails the whole); is_finite is the conjunction; is_identity/is_zero/is_diagonal/is_symmetric/is_invertible/is_perpendicular are the documented comparisons "
+        "against the reference objects (off-diagonal index set computed and proved complete). " + TIE + "Native f32/f64 answers are compared with the scalar crate's per component.",
+   note=NOTE + "No axioms. The scalar relations (approx crate) are an oracle.", design="6 (C18)",
+   technique="Coq proof (structural, relation-parametric) + correspondence at exact rationals and native floats"),
+ "C19": dict(
+   text="Machine-checked Coq theorems: cast on every compound type is Some of the component-wise casts iff every component cast is Some, and None otherwise "
+        "(all-or-nothing), for ANY scalar cast function. " + TIE + "All 12x12 scalar type pairs are executed with the scalar NumCast answers handed to the model as an oracle table.",
+   note=NOTE + "No axioms. num_traits::NumCast is an oracle.", design="6 (C19)",
+   technique="Coq proof (parametric in the scalar cast) + exhaustive type-pair correspondence"),
+ "C20": dict(
+   text="Machine-checked Coq theorems over a model of the serde data model (tree of named fields/newtypes/leaves): deserialize(serialize v) = Some v for every serialisable "
+        "type given leaf round trip; the serialised tree carries exactly the public field names (x y z w / v s / scale rot disp / bare numbers for angles); the hand-written "
+        "Decomposed visitor (modelled as a fold over the document entries) accepts the three fields in every order (Permutation), rejects any document with an unknown key or "
+        "a missing field. The model is tied to /repo by serialising real values through serde_json and comparing the JSON tree with the model's, and by feeding Decomposed "
+        "documents (all orders, omissions, unknown/duplicate keys) to the real deserialiser; bit-for-bit float round trip through JSON text is an executed predicate.",
+   note=NOTE + "No axioms. serde derive expansion and serde_json are outside the model (format oracle); serde_json needs its float_roundtrip feature for exact float parsing.",
+   design="6 (C20)", technique="Coq proof (structural round trip, Permutation-invariance of the visitor fold) + serde_json tree/document correspondence"),
+})
+
 def main():
     checks = []
     for pid in ALL:
@@ -94,7 +147,7 @@ def main():
           "level_note": c["note"],
           "technique": c["technique"],
         })
-    na = [{"property_id": p, "reason": "check not built yet in this round (planned: Coq model + proofs + correspondence, see DESIGN.md section 6)"}
+    na = [{"property_id": p, "reason": "check not built yet (planned: Coq model + proofs + correspondence, see DESIGN.md section 6); no claim is made for this property"}
           for p in ALL if p not in CLAIMED]
     m = {
       "version": 1,
